@@ -362,6 +362,16 @@ def scenario(desc, nm):
         out.append(("conservative:dataarray", rec(lambda: g.transform(da, nm[a], xr.DataArray(bins, dims=[td]), target_data=tdo, method="conservative"), inv)))
         out.append(("conservative:target_dim", rec(lambda: g.transform(da, nm[a], xr.DataArray(bins, dims=[td]), target_data=tdo, target_dim=td, method="conservative"), inv)))
         out.append(("conservative:center", rec(lambda: g.transform(da, nm[a], bins, target_data=tdc, method="conservative"), inv)))
+        # the data may carry a non-dimension coordinate (a label per ensemble member, say) - of whatever name
+        aux = nm["D0"]
+        da_aux = da.assign_coords({aux: (e1, np.array([10.0, 20.0]))})
+
+        def with_aux(**kw):
+            r = g.transform(da_aux, nm[a], **kw)
+            return {"result": r, "keeps_the_coordinate": aux in r.coords}
+
+        out.append(("linear:aux-coord", rec(lambda: with_aux(target=lv, target_data=tdc), inv)))
+        out.append(("conservative:aux-coord", rec(lambda: with_aux(target=bins, target_data=tdo, method="conservative"), inv)))
         return out
     # faces: an axis-swapping junction, with extra dims
     a0, a1 = A
